@@ -270,6 +270,16 @@ def r03_5(ctx):
             ok, w = cfg.dominated_by(n, defs, completed=True) if defs else (False, None)
             ctx.ob('R03.5', '_ack:%s-recorded-before-callback' % attr.split('.')[1], ok, fi, n,
                    '%s = %s dominates the accept callback' % (attr, val), path=w)
+        # accept before result: _set (result handler, supervisor, time-limit scanner) resolves the handle and runs
+        # the result callbacks under the handle's lock, so the accept callback must run under that lock too
+        st = m.func('pool:ApplyResult._set')
+        locks = {st.canon(it.context_expr) for w_ in walk_own(st.node) if isinstance(w_, ast.With) for it in w_.items}
+        inside = any(isinstance(w_, ast.With) and any(fi.canon(it.context_expr) in locks for it in w_.items) and
+                     any(x is c for b in w_.body for x in ast.walk(b)) for w_ in walk_own(fi.node))
+        ctx.ob('R03.5', '_ack:accept-callback-inside-the-handle-lock', bool(locks) and inside, fi, c,
+               'the accept callback runs inside `with %s`, the lock _set takes' % '/'.join(sorted(locks)) if inside else
+               'the accept callback runs after the handle lock was released: another thread can resolve the job and '
+               'run its result / error callback before or during the accept callback')
     # cancelled arm
     canc = lambda n: q.has_guard(fi, n, 'self._cancelled', True)
     bad = []
@@ -410,6 +420,9 @@ def run(ctx):
 
 _P = 'billiard/pool.py'
 MUTANTS = [
+    ('accept-callback-outside-the-handle-lock', _P,
+     "            response = ACK\n            if self._accept_callback:\n                try:\n                    self._accept_callback(pid, time_accepted)\n                except self._propagate_errors:\n                    response = NACK\n                    raise\n                except Exception:\n                    response = NACK\n                    # ignore other errors\n            if self._send_ack and synqW_fd:\n                return self._send_ack(response, pid, self._job, synqW_fd)\n",
+     "        response = ACK\n        if self._accept_callback:\n            try:\n                self._accept_callback(pid, time_accepted)\n            except self._propagate_errors:\n                response = NACK\n                raise\n            except Exception:\n                response = NACK\n        if self._send_ack and synqW_fd:\n            return self._send_ack(response, pid, self._job, synqW_fd)\n", 'R03.5'),
     ('cancelled-refused-without-handshake', _P, "            if self._cancelled and self._send_ack:\n", "            if self._cancelled:\n", 'R03.5'),
     ('fallback-only-for-pickling-errors', _P, "                        put((READY, (job, i, result, inqW_fd)))\n                    except Exception as exc:\n",
      "                        put((READY, (job, i, result, inqW_fd)))\n                    except (pickle.PicklingError, TypeError) as exc:\n", 'R12.3'),
